@@ -160,6 +160,23 @@ func buildHarnessHandlers(h map[string]handler) {
 		}, nil)
 		return nil
 	}
+	h[H+"QuiesceAll"] = func(e *Exec, fn *ssa.Function, a []Value) Value {
+		// like Quiesce, but pending environment events (armed timers within the event bound) fire first
+		s := e.sch
+		me := s.cur
+		e.yield(func() bool {
+			for _, o := range s.gs {
+				if o == me || o.done || !o.enabled() {
+					continue
+				}
+				if !o.env || s.envEvents < e.cfg.EnvEvents {
+					return false
+				}
+			}
+			return true
+		}, nil)
+		return nil
+	}
 	h[H+"Yield"] = func(e *Exec, fn *ssa.Function, a []Value) Value {
 		e.yield(func() bool { return true }, nil)
 		return nil
